@@ -5,13 +5,14 @@ import sys, os, subprocess, json, time
 VERIF = os.path.dirname(os.path.dirname(os.path.abspath(__file__)))
 sys.path.insert(0, os.path.join(VERIF, "lib"))
 from props import PROPS
+REPO = os.environ.get("XJS_REPO", "/repo")
 arg = sys.argv[1]
 patch = arg if arg.endswith(".diff") else os.path.join(arg, "patch.diff")
 props = sys.argv[2:] or sorted(PROPS)
-st = subprocess.run(["git", "-C", "/repo", "status", "--porcelain"], capture_output=True, text=True).stdout.strip()
+st = subprocess.run(["git", "-C", REPO, "status", "--porcelain"], capture_output=True, text=True).stdout.strip()
 if st:
     print("refusing: /repo is not clean:\n" + st); sys.exit(2)
-r = subprocess.run(["git", "-C", "/repo", "apply", os.path.abspath(patch)], capture_output=True, text=True)
+r = subprocess.run(["git", "-C", REPO, "apply", os.path.abspath(patch)], capture_output=True, text=True)
 if r.returncode != 0:
     print("patch does not apply:", r.stderr); sys.exit(2)
 res = {}
@@ -21,7 +22,7 @@ ev_backup = tempfile.mkdtemp(prefix="evidence_")
 shutil.copytree(os.path.join(VERIF, "evidence"), os.path.join(ev_backup, "evidence"))
 try:
     env = dict(os.environ, GOFLAGS="-mod=mod", GOPROXY="off", GOSUMDB="off", GOTOOLCHAIN="local")
-    t = subprocess.run("cd /repo && go build ./... && go test -vet=off -count=1 ./... 2>&1 | grep -v '^ok\\|no test files' | head -5", shell=True, capture_output=True, text=True, env=env)
+    t = subprocess.run("cd " + REPO + " && go build ./... && go test -vet=off -count=1 ./... 2>&1 | grep -v '^ok\\|no test files' | head -5", shell=True, capture_output=True, text=True, env=env)
     print("baseline with patch:", "OK" if not t.stdout.strip() and t.returncode == 0 else "FAILS: " + t.stdout + t.stderr)
     for p in props:
         t0 = time.time()
@@ -34,10 +35,10 @@ try:
             extra = " no-failing-input-found" if "no-failing-input-found" in viol[0] else " (with failing input)"
         print("  %s: %s%s (%.1fs)" % (p, tag, extra, time.time() - t0))
 finally:
-    subprocess.run(["git", "-C", "/repo", "checkout", "--", "."])
+    subprocess.run(["git", "-C", REPO, "checkout", "--", "."])
     shutil.rmtree(os.path.join(VERIF, "evidence"))
     shutil.copytree(os.path.join(ev_backup, "evidence"), os.path.join(VERIF, "evidence"))
     shutil.rmtree(ev_backup)
     # regenerate Gen and rebuild on the clean tree so later runs start clean
-    subprocess.run([os.path.join(VERIF, "build", "xjs2v"), "/repo", os.path.join(VERIF, "coq", "Gen")])
+    subprocess.run([os.path.join(VERIF, "build", "xjs2v"), REPO, os.path.join(VERIF, "coq", "Gen")])
 print(json.dumps(res))
